@@ -265,7 +265,7 @@ theorem denote_rep_nat (body : PT) (count : Expr) (cons : List Expr) (σ : Scope
 
 /-- `RepetitionPT(body, c, constraints).with_repetition(k)` (the merged template with count `c * k`) denotes
 exactly the pulse of the explicit nesting `RepetitionPT(RepetitionPT(body, c, constraints), k)` whenever both
-counts evaluate to natural numbers and the constraints hold (PF-27: false for two negative counts; with violated
+counts evaluate to natural numbers and the constraints hold (PF-C05d: false for two negative counts; with violated
 constraints and `k = 0` the explicit nesting does not even look at them). -/
 theorem withRepetition_merge_denote (body : PT) (c k : Expr) (cons : List Expr) (σ : Scope)
     (mm : List (MName × Option MName)) (cm : List (Chan × Option Chan)) (n m : Nat)
